@@ -27,7 +27,7 @@ class Undecided(Exception):
 
 class Ob:
     __slots__ = ("prop", "rule", "construct", "where", "status", "detail", "witness",
-                 "nontrivial")
+                 "nontrivial", "engine")
 
     def __init__(self, prop, rule, construct, where, status, detail="", witness=None,
                  nontrivial=True):
@@ -39,6 +39,7 @@ class Ob:
         self.detail = detail
         self.witness = witness
         self.nontrivial = nontrivial
+        self.engine = False     # recorded after the rule-base results were consulted
 
     def key(self):
         return (self.prop, self.rule, self.construct)
@@ -70,16 +71,43 @@ class Report:
         self.notes = []
         self.assumptions = []
         self.rules_applied = {}
+        self.ctx = None
+        self.engine_free = set()    # clauses that never read the rule-base results
+        self.withheld = 0
+
+    def _mark(self, ob):
+        eng = self.ctx._cache.get("e3") if self.ctx is not None else None
+        ob.engine = bool(eng is not None and eng.consulted)
+        self.obs.append(ob)
+
+    def engine_guard(self):
+        """A VIOLATED verdict drawn from the rule-base results is only as good as those
+        results: when the interpreter met an idiom outside its subset while computing them
+        (unknown values flow through the shape fixpoint), such verdicts are withheld and
+        reported as UNDECIDED with the idiom that has to be modelled first."""
+        eng = self.ctx._cache.get("e3") if self.ctx is not None else None
+        if eng is None or not eng.incomplete:
+            return
+        why = eng.incomplete[0]
+        if len(eng.incomplete) > 1:
+            why += " (+{} more)".format(len(eng.incomplete) - 1)
+        for o in self.obs:
+            if o.status == VIOLATED and o.engine and o.rule not in self.engine_free:
+                o.status = UNDECIDED
+                o.detail = "verdict withheld, the rule-base analysis is incomplete [{}]; candidate: {}".format(
+                    why, o.detail)
+                o.witness = None
+                self.withheld += 1
 
     # -- obligations ------------------------------------------------------
     def add(self, rule, construct, where, ok, detail="", witness=None, nontrivial=True):
         st = DISCHARGED if ok else VIOLATED
-        self.obs.append(Ob(self.prop, rule, construct, where, st, detail, witness,
-                           nontrivial))
+        self._mark(Ob(self.prop, rule, construct, where, st, detail, witness,
+                      nontrivial))
         return ok
 
     def violated(self, rule, construct, where, detail="", witness=None):
-        self.obs.append(Ob(self.prop, rule, construct, where, VIOLATED, detail, witness))
+        self._mark(Ob(self.prop, rule, construct, where, VIOLATED, detail, witness))
 
     def ok(self, rule, construct, where, detail="", nontrivial=True):
         self.obs.append(Ob(self.prop, rule, construct, where, DISCHARGED, detail, None,
